@@ -7,6 +7,9 @@ Oracle : differential. Two executions from scratch with identical tie-break choi
          json_to_state(state_to_json(state)) (which must not raise) and/or advances the (fake) clock by 6 s, then feeds H2.
          The canonicalised outgoing events of H2 must be equal step by step and the C09 invariants must hold on the restored state.
 """
+import json
+import re
+
 from hypothesis import strategies as st
 
 from vf import co2, smh
@@ -19,7 +22,7 @@ RULE = (
     "program from the co2 grammar; optionally every flow gets a prologue assigning rich variables ($s set, $rx regex, $d dict with an int and "
     "a str key, $n nested containers) and 0-4 statements using them are inserted at drawn positions (send the value, index the dict by its "
     "int key, match with the regex, start an action with a set argument); history of 2-24 items; up to 3 drawn cut points x mode in "
-    "{save, age, both}. Non-trivial = at the cut at least one child flow is running and a reference-typed or container variable is live "
+    "{save, age, both, every (a round trip before each later event), every-age (round trip + 6 s idle before each later event)}; 1 of 4 generated cases runs the shipped library (core, timing, avatars; generator shared with C09) with 1-2 cuts. Non-trivial = at the cut at least one child flow is running and a reference-typed or container variable is live "
     "(save), or a finished instance older than the threshold exists (age); distinct by (program, history, cut, mode)."
 )
 ASSUMPTIONS = [
@@ -56,7 +59,7 @@ CTXHELPER = {"name": "ctxhelper", "params": [], "loop": None, "body": [{"k": "ra
 
 
 def budget(tier):
-    return 1500 if tier == "quick" else 25000
+    return 4000 if tier == "quick" else 40000
 
 
 @st.composite
@@ -69,11 +72,120 @@ def _case(draw):
             fi = draw(st.integers(0, len(prog["flows"]) - 1))
             uses.append([fi, draw(st.integers(0, 8)), draw(st.sampled_from(sorted(USES)))])
     cuts = draw(st.lists(st.integers(1, len(hist) - 1), min_size=1, max_size=3, unique=True))
-    return {"prog": prog, "hist": hist, "uses": uses, "cuts": sorted(cuts), "mode": draw(st.sampled_from(["save", "save", "age", "both"])), "choices": draw(st.lists(st.integers(0, 3), max_size=3))}
+    return {"prog": prog, "hist": hist, "uses": uses, "cuts": sorted(cuts), "mode": draw(st.sampled_from(MODES)), "choices": draw(st.lists(st.integers(0, 3), max_size=3))}
+
+
+MODES = ["save", "save", "age", "both", "every", "every-age"]
+
+
+@st.composite
+def _lib_case(draw):
+    # the shipped library (core, timing, avatars) under a generated main (generator shared with C09) with cuts
+    from vf.props import c09
+
+    case = draw(c09._lib_case())
+    n = len(case["hist"])
+    case["cuts"] = sorted(draw(st.lists(st.integers(1, n - 1), min_size=1, max_size=2, unique=True)))
+    case["mode"] = draw(st.sampled_from(MODES))
+    case["uses"] = []
+    return case
+
+
+@st.composite
+def _rails_case(draw):
+    """LLMRails level: a Colang 2.x conversation through generate(state=...) (vf.pipeline configuration as in C01/C02)."""
+    from vf import pipeline
+
+    cfg = {"v": 2, "in": draw(pipeline.st_rail_kinds(2, 0, 2, "in")), "out": draw(pipeline.st_rail_kinds(2, 0, 2, "out"))}
+    cfg["dialog"] = draw(st.sampled_from([False, True, True, "llmc"]))
+    cfg["exc"] = draw(st.sampled_from([False, False, True]))
+    cfg["style"] = draw(st.sampled_from(["config", "hand"]))
+    routes = pipeline.routes_for(cfg)
+    turns = []
+    for t in range(draw(st.integers(2, 4))):
+        turns.append(
+            {
+                "user": draw(pipeline.st_user_text(t)),
+                "route": draw(st.sampled_from(routes)),
+                "in": [draw(pipeline.st_verdict(k, p_accept=8)) for k in cfg["in"]],
+                "out": [draw(pipeline.st_verdict(k, p_accept=6)) for k in cfg["out"]],
+                "body": draw(pipeline.st_body()),
+            }
+        )
+    return {"leg": "rails", "config": cfg, "turns": turns, "api": "async", "mode": draw(st.sampled_from(["save", "both", "rewind", "rewind"])), "rewind_to": draw(st.integers(1, 3))}
 
 
 def strategy(tier):
-    return _case()
+    return st.one_of(*([_case()] * 8 + [_lib_case()] * 3 + [_rails_case()]))
+
+
+def _rails_run(case, mode, start=0, state=None):
+    """mode None: the State object returned by the runtime is handed back live; "save": the JSON state that generate() returns is handed
+    back (json_to_state on the next call); "both": additionally 6 s of idle time pass between the turns. With start=r, state=J the
+    conversation is continued from turn r with the saved state J of an earlier run (an older snapshot restored on the same instance)."""
+    from vf import pipeline
+
+    smh.install()
+    smh.CHOOSER.reset([])
+    smh.Clock.virtual = 0.0
+    pl = pipeline.get_pipeline(case["config"])
+    session = pl.new_session(case)
+    runtime = pl.rails.runtime
+    orig = runtime.process_events
+    captured = {}
+
+    async def spy(events, state=None, **kw):
+        out, st_ = await orig(events, state=state, **kw)
+        captured["state"] = st_
+        return out, st_
+
+    runtime.process_events = spy
+    obs = []
+    if state is not None:
+        session.state = state
+    try:
+        for t in range(start, len(case["turns"])):
+            o = pl.turn(session, t)
+            obs.append({"reply": o["reply"], "raised": o["raised"], "trace": o["trace"], "llm": [c.get("prompt") if isinstance(c, dict) else c for c in o["llm"]], "saved": session.state if mode is not None else None})
+            if mode is None and "state" in captured:
+                session.state = captured["state"]
+            if mode == "both":
+                smh.Clock.virtual += 6.0
+    except BaseException:
+        pipeline.reset_runtime()
+        raise
+    finally:
+        del runtime.process_events
+    return obs
+
+
+def _rails_prop(case):
+    live = _rails_run(case, None)
+    if case["mode"] == "rewind":
+        # an OLDER snapshot is restored on the same instance: the conversation is served with JSON states, then continued a second
+        # time from the state saved after turn r-1; that continuation must again equal the live one
+        first = _rails_run(case, "save")
+        r = min(case.get("rewind_to", 1), len(case["turns"]) - 1)
+        other = first[:r] + _rails_run(case, "save", start=r, state=first[r - 1]["saved"])
+    else:
+        other = _rails_run(case, case["mode"])
+    for o in live + other:
+        o.pop("saved", None)
+        # the harness's own call counters restart with every session object
+        o["trace"] = [{k: v for k, v in e.items() if k not in ("k", "seq")} if isinstance(e, dict) else e for e in o["trace"]]
+    a, b = _novolatile(_nouuid(json.loads(json.dumps(live, default=repr)), {})), _novolatile(_nouuid(json.loads(json.dumps(other, default=repr)), {}))
+    for t, (x, y) in enumerate(zip(a, b)):
+        if x["raised"] and not (y["raised"]):
+            return ok(skip="live-turn-raises")  # the live run itself fails: C03/C17 territory, nothing to compare
+        for key in ("raised", "reply", "trace", "llm"):
+            if x[key] != y[key]:
+                raise Violation(
+                    "rails-diverge-" + case["mode"] + ":" + key,
+                    f"turn {t}: with the State object handed back live {key} = {str(x[key])[:300]}; with the JSON state from generate() ({case['mode']}) {key} = {str(y[key])[:300]}; config {case['config']}; turns {case['turns']}",
+                )
+    cfg = case["config"]
+    nt = len(case["turns"]) >= 2 and bool(cfg["in"] or cfg["out"] or cfg["dialog"])
+    return ok(nt=nt, labels=["rails-leg", "mode-" + case["mode"], "dialog-" + str(cfg["dialog"])], view={"config": cfg, "turns": [t["user"] for t in case["turns"]], "replies": [o["reply"] for o in live]}, counters={"cut_points_compared": len(case["turns"]) - 1})
 
 
 def enumerate_cases(tier):
@@ -102,7 +214,7 @@ def enumerate_cases(tier):
             ]
         }
         for pos in (3, 7):
-            for mode in ("save", "age", "both"):
+            for mode in ("save", "age", "both", "every-age"):
                 yield {"prog": prog, "hist": base_hist, "uses": [[1, pos, use]], "cuts": list(range(1, len(base_hist))), "mode": mode, "choices": []}
     yield from _activation_cases()
     # hand-written families shared with C09 (two flows sharing one co-won action, ...): every cut x mode, both tie-break outcomes
@@ -112,7 +224,7 @@ def enumerate_cases(tier):
     hist2 = [["ev", 0, None], ["ev", 2, None], ["ev", 1, None], ["finished", 0], ["ev", 0, None]]
     for name, (text, _items) in c09.FAMILIES.items():
         for h in (hist, hist2):
-            for mode in ("age", "both", "save"):
+            for mode in ("age", "both", "save", "every-age"):
                 for choices in ([0], [1]):
                     yield {"text": text, "prog": {"flows": []}, "hist": h, "uses": [], "cuts": list(range(1, len(h))), "mode": mode, "choices": choices}
 
@@ -127,11 +239,15 @@ def _activation_cases():
     main2 = {"name": "main", "params": [], "loop": None, "body": [{"k": "activate", "f": 0}, {"k": "activate", "f": 1}, {"k": "raw", "text": "match Never()"}]}
     hist = [["ev", 0, None], ["ev", 1, None], ["ev", 0, None], ["ev", 3, None], ["ev", 0, None], ["ev", 1, None], ["ev", 0, None]]
     for flows in ([h_simple, main1], [h_child, h1, main1], [h_act, main1], [h_simple, h1, main2]):
-        for mode in ("age", "both", "save"):
+        for mode in ("age", "both", "save", "every-age"):
             yield {"prog": {"flows": flows}, "hist": hist, "uses": [], "cuts": list(range(1, len(hist))), "mode": mode, "choices": []}
 
 
 def build(case):
+    if case.get("leg") == "lib":
+        from vf.props import c09
+
+        return c09.lib_program(case)
     if "text" in case:
         return case["text"]
     prog = {"flows": [dict(f, body=list(f["body"])) for f in case["prog"]["flows"]]}
@@ -159,17 +275,27 @@ def build(case):
     return co2.render(prog)
 
 
+def _session(text, case):
+    if case.get("leg") == "lib":
+        from vf.props import c09
+
+        return c09.LibSession(text, case["choices"])
+    return smh.Session(text, case["choices"])
+
+
 def _run(text, case, cut, mode):
-    s = smh.Session(text, case["choices"])
+    s = _session(text, case)
     outs = []
     info = {}
+    every = mode in ("every", "every-age")
     for i, item in enumerate(case["hist"]):
-        if i == cut and mode is not None:
+        if mode is not None and (i == cut or (every and i > cut)):
             st_ = s.state
-            info["children_running"] = sum(1 for fs in st_.flow_states.values() if fs.parent_uid and smh.sm().is_active_flow(fs))
-            info["done_instances"] = sum(1 for fs in st_.flow_states.values() if fs.status.value in ("finished", "stopped"))
-            info["ref_vars"] = sum(1 for fs in st_.flow_states.values() if smh.sm().is_active_flow(fs) for v in fs.context.values() if not isinstance(v, (str, int, float, bool, type(None))))
-            if mode in ("save", "both"):
+            if i == cut:
+                info["children_running"] = sum(1 for fs in st_.flow_states.values() if fs.parent_uid and smh.sm().is_active_flow(fs))
+                info["done_instances"] = sum(1 for fs in st_.flow_states.values() if fs.status.value in ("finished", "stopped"))
+                info["ref_vars"] = sum(1 for fs in st_.flow_states.values() if smh.sm().is_active_flow(fs) for v in fs.context.values() if not isinstance(v, (str, int, float, bool, type(None))))
+            if mode in ("save", "both", "every", "every-age"):
                 from nemoguardrails.colang.v2_x.runtime.serialization import json_to_state, state_to_json
 
                 try:
@@ -183,7 +309,7 @@ def _run(text, case, cut, mode):
                 bad = smh.invariants(s.state)
                 if bad:
                     raise Violation("restored-" + bad[0][0], f"cut {cut}: {bad[0][1]}\n{text}")
-            if mode in ("age", "both"):
+            if mode in ("age", "both", "every-age"):
                 smh.Clock.virtual += 6.0
         try:
             out = s.feed(item)
@@ -203,12 +329,36 @@ def _canon_steps(steps):
             d = dict(e)
             d["__step"] = k
             flat.append(d)
-    return smh.canon(flat)
+    return smh.canon(_nouuid(flat, {}))
+
+
+_UUID = re.compile(r"[0-9a-f]{8}-[0-9a-f]{4}-[0-9a-f]{4}-[0-9a-f]{4}-[0-9a-f]{12}")
+
+
+def _novolatile(x):
+    if isinstance(x, list):
+        return [_novolatile(i) for i in x]
+    if isinstance(x, dict):
+        return {k: _novolatile(v) for k, v in x.items() if k not in ("event_created_at", "uid", "source_uid")}
+    return x
+
+
+def _nouuid(x, names):
+    """uuids embedded in string values (timer names `wait_timer_<uid>`, flow instance uids) are renamed by first appearance."""
+    if isinstance(x, str):
+        return _UUID.sub(lambda m: names.setdefault(m.group(0), f"U{len(names)}"), x)
+    if isinstance(x, list):
+        return [_nouuid(i, names) for i in x]
+    if isinstance(x, dict):
+        return {k: _nouuid(v, names) for k, v in x.items()}
+    return x
 
 
 def prop(case):
+    if case.get("leg") == "rails":
+        return _rails_prop(case)
     text = build(case)
-    labels = ["mode-" + case["mode"]] + sorted({"use-" + u[2] for u in case["uses"]})
+    labels = ["mode-" + case["mode"]] + sorted({"use-" + u[2] for u in case["uses"]}) + (["library"] if case.get("leg") == "lib" else [])
     nt = False
     compared = 0
     for cut in case["cuts"]:
@@ -225,9 +375,9 @@ def prop(case):
                 "behaviour-diverges-" + case["mode"],
                 f"cut before event #{cut} ({case['mode']}): live continuation emits {a[k] if k < len(a) else 'nothing more'} where the restored/aged one emits {b[k] if k < len(b) else 'nothing more'}; history {case['hist']}\n{text}",
             )
-        if case["mode"] in ("save", "both") and info.get("children_running", 0) >= 1 and info.get("ref_vars", 0) >= 1:
+        if case["mode"] in ("save", "both", "every", "every-age") and info.get("children_running", 0) >= 1 and info.get("ref_vars", 0) >= 1:
             nt = True
-        if case["mode"] in ("age", "both") and info.get("done_instances", 0) >= 1:
+        if case["mode"] in ("age", "both", "every-age") and info.get("done_instances", 0) >= 1:
             nt = True
     if any(x for x in [case["uses"]]):
         labels.append("rich-vars")
